@@ -78,20 +78,20 @@ Mut(ev, xs) == [ev |-> ev, xs |-> xs]
 (* every bound variable below is a value drawn once (a singleton set is enumerated) *)
 HistNext ==
     /\ c.kind = "h" /\ Len(c.steps) < NHSteps
-    /\ \E r \in {Pick(1..12)} :
-         \/ r \in 1..3 /\ \E s \in {[ev |-> "Find", qi |-> PickQi(r), index |-> PickIdx(r), limit |-> Pick(PageLimit),
+    /\ \E r \in {Pick(1..14)} :
+         \/ r \in 1..4 /\ \E s \in {[ev |-> "Find", qi |-> PickQi(r), index |-> PickIdx(r), limit |-> Pick(PageLimit),
                                        via |-> Pick({"db", "fe", "both"})]} : Push(<<s>>)
-         \/ r = 4 /\ \E qi \in {PickQi(r)}, L \in {Pick(PageLimit \ {NOLIMIT})} :
+         \/ r = 5 /\ \E qi \in {PickQi(r)}, L \in {Pick(PageLimit \ {NOLIMIT})} :
                         Push(<<[ev |-> "Pages", qi |-> qi, L |-> L, n |-> NPages(Match(c.db, c.pool[qi]), L)]>>)
-         \/ r = 5 /\ \E s \in {[ev |-> "Facet", qi |-> PickQi(r), d |-> Pick(Dims)]} : Push(<<s>>)
-         \/ r \in 6..8 /\ \E k \in {Min2(Pick(1..3), Min2(Cardinality(c.db), Cardinality(Grid \ c.db)))} :
+         \/ r = 6 /\ \E s \in {[ev |-> "Facet", qi |-> PickQi(r), d |-> Pick(Dims)]} : Push(<<s>>)
+         \/ r \in 7..9 /\ \E k \in {Min2(Pick(1..3), Min2(Cardinality(c.db), Cardinality(Grid \ c.db)))} :
                            \E rm \in {RandomSubset(k, c.db)}, ad \in {RandomSubset(k, Grid \ c.db)} :
                               IF Pick(BOOLEAN) THEN Change((c.db \ rm) \cup ad, <<Mut("Remove", rm), Mut("Store", ad)>>)
                                                ELSE Change((c.db \ rm) \cup ad, <<Mut("Store", ad), Mut("Remove", rm)>>)
-         \/ r = 9 /\ \E ad \in {RandomSubset(Pick(1..2), Grid)} : Change(c.db \cup ad, <<Mut("Store", ad)>>)
-         \/ r = 10 /\ \E rm \in {RandomSubset(Min2(Pick(1..2), Cardinality(c.db)), c.db)} : Change(c.db \ rm, <<Mut("Remove", rm)>>)
-         \/ r = 11 /\ \E nd \in {RandomSubset(Cardinality(c.db), Grid)} : Change(nd, <<Mut("Reopen", nd)>>)
-         \/ r = 12 /\ \E nd \in {RandomSubset(Pick(0..12), Grid)} : Change(nd, <<Mut("Reopen", nd)>>)
+         \/ r = 10 /\ \E ad \in {RandomSubset(Pick(1..2), Grid)} : Change(c.db \cup ad, <<Mut("Store", ad)>>)
+         \/ r = 11 /\ \E rm \in {RandomSubset(Min2(Pick(1..2), Cardinality(c.db)), c.db)} : Change(c.db \ rm, <<Mut("Remove", rm)>>)
+         \/ r \in 12..13 /\ \E nd \in {RandomSubset(Cardinality(c.db), Grid)} : Change(nd, <<Mut("Reopen", nd)>>)
+         \/ r = 14 /\ \E nd \in {RandomSubset(Pick(0..12), Grid)} : Change(nd, <<Mut("Reopen", nd)>>)
 
 Init == c = [kind |-> "root"]
 Next == \/ /\ c.kind = "root"
